@@ -211,6 +211,18 @@ def gen_dev3(rng):
     return {"k": "c16.dev3", "verts": verts, "faces": faces, "queries": qs}
 
 
+def gen_lsd(rng):
+    c0 = gen_dev2(rng)
+    qs = c0["queries"] + [[rng.uniform(-3, 8), rng.uniform(-3, 3)] for _ in range(rng.choice([0, 5, 20]))]
+    rng.shuffle(qs)
+    L = sum(math.dist(a, b) for a, b in zip(c0["curve"], c0["curve"][1:]))
+    r = rng.random()
+    iv = None if r < 0.3 else sorted([rng.uniform(0, L), rng.uniform(0, L)]) if r < 0.8 else [0.0, L * 0.5]
+    if rng.random() < 0.1:
+        qs = []
+    return {"k": "c16.lsd", "curve": c0["curve"], "tol": c0["tol"], "closed": c0["closed"], "queries": qs, "interval": iv}
+
+
 def gen_dev3_plate(rng):
     """a flat open plate and points level with it beyond its rim (and beyond its corners): the closest point is on the border
     and the offset lies in the plate's plane"""
@@ -233,7 +245,7 @@ def generate(rng, tier):
     for _ in range(n // 2):
         out += [gen_dev2(rng), gen_dev3(rng)]
     for _ in range(n // 6):
-        out += [gen_dev3_plate(rng)]
+        out += [gen_dev3_plate(rng), gen_lsd(rng), gen_lsd(rng)]
     return out
 
 
@@ -405,6 +417,27 @@ def oracle(c, r):
                     yield ("dev2-sign", "deviation %r has the wrong sign for a point on the %s side" % (o["dev"], "normal" if side > 0 else "far"))
                 if norm(sub(o["actual"], q)) > 1e-8 * max(1, norm(q)):
                     yield ("dev2-reconstruct", "reference + direction*value = %r, measured point %r" % (o["actual"], q))
+    elif k == "c16.lsd":
+        if r.get("panic"):
+            yield ("lsd-panic", "line_surface_deviations panicked on %d points (interval %r)" % (len(c["queries"]), c["interval"]))
+            return
+        if r.get("err"):
+            return
+        iv = c["interval"]
+        keep = [e for e in r["each"] if iv is None or iv[0] <= e["l"] <= iv[1]]
+        got = r["set"]
+        if len(got) != len(keep) or any(g["dev"] != e["dev"] or g["p"] != e["p"] for g, e in zip(got, keep)):
+            yield ("lsd-contents", "line_surface_deviations kept %d deviations %r; the points whose closest station lies in %r give %d: %r" % (
+                len(got), [g["dev"] for g in got][:8], iv, len(keep), [e["dev"] for e in keep][:8]))
+            return
+        vals = [g["dev"] for g in got]
+        if vals:
+            if r["max"] != max(vals) or r["min"] != min(vals):
+                yield ("lsd-extremes", "the set holds %r but reports max %r min %r" % (vals[:10], r["max"], r["min"]))
+            elif r["zone"] is None or abs(r["zone"] - 2 * max(abs(max(vals)), abs(min(vals)))) > 1e-12 * max(1.0, abs(r["zone"])):
+                yield ("lsd-zone", "symmetric zone %r of a set spanning [%r, %r]" % (r["zone"], min(vals), max(vals)))
+        elif r["max"] is not None or r["min"] is not None or r["zone"] not in (0.0, None):
+            yield ("lsd-extremes", "an empty set reports max %r min %r zone %r" % (r["max"], r["min"], r["zone"]))
     elif k == "c16.dev3":
         for q, o in zip(c["queries"], r["out"]):
             d = o["cdist"]
